@@ -570,3 +570,122 @@ func (c *Ctx) checkConfigBounds(r *Report, ro *Roles, rule string) {
 	}
 	r.Floor("config-dependent slice sites on the hot path", n, 1)
 }
+
+// configIntLoad: the first load of a configuration integer field in v's operand closure.
+func (c *Ctx) configIntLoad(v ssa.Value, cfg map[*types.Var]string) ssa.Value {
+	seen := map[ssa.Value]bool{}
+	var found ssa.Value
+	var rec func(v ssa.Value) bool
+	rec = func(v ssa.Value) bool {
+		if v == nil || seen[v] {
+			return false
+		}
+		seen[v] = true
+		if ld, ok := v.(*ssa.UnOp); ok && ld.Op == token.MUL {
+			if fa, ok := ld.X.(*ssa.FieldAddr); ok {
+				if _, ok := cfg[fieldOfAddr(fa)]; ok {
+					found = v
+					return true
+				}
+			}
+		}
+		in, ok := v.(ssa.Instruction)
+		if !ok {
+			return false
+		}
+		for _, op := range in.Operands(nil) {
+			if *op != nil && rec(*op) {
+				return true
+			}
+		}
+		return false
+	}
+	rec(v)
+	return found
+}
+
+// checkTruncation decides the width rule of the file:line column as arithmetic, for all lengths n and widths W:
+// the tail slice s[low:] whose low bound depends on the configured width is taken only when n > W, every other
+// path keeps the string whole only when n <= W, and the kept tail n-low equals max(W-reserve, 0).
+func (c *Ctx) checkTruncation(r *Report, ro *Roles, rule string, reserve int64) {
+	cfg := c.configIntFields()
+	n := 0
+	for _, fn := range sortedFuncs(ro.HotPath) {
+		eachInstr(fn, func(in ssa.Instruction) {
+			sl, ok := in.(*ssa.Slice)
+			if !ok || sl.Low == nil || sl.High != nil || !isStringType(sl.X.Type()) {
+				return
+			}
+			which, dep := c.dependsOnConfigInt(sl.Low, cfg)
+			if !dep {
+				return
+			}
+			n++
+			r.SawFunc(fn)
+			key := fmt.Sprintf("%s:%s#tail(%s)", rule, fname(fn), which)
+			lc := &linCtx{c: c, fn: fn, vars: map[string]ssa.Value{}}
+			lenVar := "len(" + sl.X.Name() + ")"
+			eachInstr(fn, func(j ssa.Instruction) {
+				if call, ok := j.(*ssa.Call); ok {
+					if b, ok := call.Call.Value.(*ssa.Builtin); ok && b.Name() == "len" && call.Call.Args[0] == sl.X {
+						lenVar = lc.varName(call)
+					}
+				}
+			})
+			nL := linVar(lenVar)
+			ws := lc.lin(c.configIntLoad(sl.Low, cfg), 0)
+			if len(ws) != 1 {
+				r.Undecided(key, c.instrPos(sl), "the configured width is not a single linear term")
+				return
+			}
+			W := ws[0].L
+			base := []Ineq{{nL}}
+			var bad []string
+			// (1) truncated only when longer than the width; (2) each deciding guard, when it fails, means n <= W
+			facts := append([]Ineq{}, base...)
+			for _, g := range guardsOfInstr(sl) {
+				fs, ok := lc.condFacts(g.Cond, g.Polarity)
+				if !ok {
+					continue
+				}
+				facts = append(facts, fs...)
+				mentions := false
+				for _, f := range fs {
+					if f.L.Coef[lenVar] != 0 {
+						mentions = true
+					}
+				}
+				if !mentions {
+					continue
+				}
+				if nfs, ok := lc.condFacts(g.Cond, !g.Polarity); ok {
+					if ok2, wit := implies(append(append([]Ineq{}, base...), nfs...), Ineq{W.add(nL, -1)}); !ok2 {
+						bad = append(bad, fmt.Sprintf("a string longer than the width is left whole (the guard at %s can fail with n > W, e.g. %s)", c.instrPos(g.If), wit))
+					}
+				}
+			}
+			if ok2, wit := implies(facts, Ineq{nL.add(W, -1).add(linConst(1), -1)}); !ok2 {
+				bad = append(bad, fmt.Sprintf("a string that is not longer than the width is cut (n > W is not implied where the tail is taken, e.g. %s)", wit))
+			}
+			// (3) kept tail = max(W-reserve, 0)
+			for _, lo := range lc.lin(sl.Low, 0) {
+				fs := append(append([]Ineq{}, facts...), lo.Facts...)
+				keep := nL.add(lo.L, -1)
+				tgt := W.add(linConst(reserve), -1)
+				ge1, _ := implies(fs, Ineq{keep.add(tgt, -1)})
+				ge0, _ := implies(fs, Ineq{keep})
+				le1, _ := implies(fs, Ineq{tgt.add(keep, -1)})
+				le0, _ := implies(fs, Ineq{keep.scale(-1)})
+				if !(ge1 && ge0 && (le1 || le0)) {
+					bad = append(bad, fmt.Sprintf("the kept tail has length %s%s, which is not max(W-%d, 0) for every n and W", keep, lo.Note, reserve))
+				}
+			}
+			if len(bad) > 0 {
+				r.Fail(key, c.instrPos(sl), "%s", strings.Join(uniq(bad), "; "))
+			} else {
+				r.OK(key, "tail taken iff n > W; kept length = max(W-%d, 0), proved for all n, W", reserve)
+			}
+		})
+	}
+	r.Floor("width-dependent tail slices", n, 1)
+}
